@@ -309,7 +309,7 @@ func genC19(env *core.Env, emit func(core.Case)) {
 					w = fmt.Sprintf("Host header %q, original authority %q", sv[0].host, wantHost)
 				}
 			}
-			if resp != nil && resp.Request != req && obsC["h3"] == "0" && w == "" {
+			if resp != nil && resp.Request != req && w == "" {
 				w = "response is not bound to the caller's original request"
 			}
 			if cerr == nil && scheme == "http" && len(res.HTTPS) == 0 && w == "" {
